@@ -933,6 +933,41 @@ def canon_stepvals(vals):
 
 # ----------------------------------------------------------------------------- directed models
 
+def padding_defs():
+    """records with padding between fields but none after the last one (not a contiguous run of their fields' bytes), at every
+    position where a back end may take a whole-value shortcut: scalar, vector, fixed vector, arrays"""
+    P = lambda n: ("prim", n)
+    defs = []
+    class _P:   # noqa: N801
+        pass
+    pkg = _P()
+    pkg.defs = defs
+    # records with padding between fields but none after the last one: not a contiguous run of their fields' bytes
+    pkg.defs.append({"kind": "record", "name": "PadA", "tparams": [], "fields": [("gain", P("float32")), ("offset", P("float64"))]})
+    pkg.defs.append({"kind": "record", "name": "PadB", "tparams": [], "fields": [("flag", P("bool")), ("value", P("float32"))]})
+    pkg.defs.append({"kind": "record", "name": "PadC", "tparams": [], "fields": [("id", P("uint8")), ("z", P("complexfloat64"))]})
+    pkg.defs.append({"kind": "record", "name": "PadD", "tparams": [], "fields": [("a", P("int8")), ("b", P("int16")), ("c", P("float32")), ("d", P("float64"))]})
+    pkg.defs.append({"kind": "record", "name": "PadE", "tparams": [], "fields": [("p", ("named", "PadB", [])), ("q", ("vec", P("float64"), 2))]})
+    # array elements holding a nested record whose fields are not fixed-width (read element by element)
+    pkg.defs.append({"kind": "record", "name": "NestInner", "tparams": [], "fields": [("a", P("int32")), ("u", P("uint64"))]})
+    pkg.defs.append({"kind": "record", "name": "NestOuter", "tparams": [], "fields": [("inner", ("named", "NestInner", [])), ("b", P("float32")), ("deep", ("named", "PadE", []))]})
+    steps = []
+    for i, nme in enumerate(["PadA", "PadB", "PadC", "PadD", "PadE", "NestOuter"]):
+        steps.append((f"s{i}", ("named", nme, []), i % 2 == 0))
+        steps.append((f"v{i}", ("vec", ("named", nme, []), None), i % 2 == 1))
+        steps.append((f"w{i}", ("vec", ("named", nme, []), 2), False))
+        steps.append((f"r{i}", ("arr", ("named", nme, []), ("rank", 1, None)), True))
+        steps.append((f"f{i}", ("arr", ("named", nme, []), ("fixed", [2], None)), False))
+    pkg.defs.append({"kind": "protocol", "name": "PPad", "steps": steps})
+    return defs
+
+
+def padding_package(namespace="Pad"):
+    pkg = Package(namespace)
+    pkg.defs = padding_defs()
+    return pkg
+
+
 def directed_package(namespace="Dir"):
     """A fixed package that systematically crosses type constructors with element types, so that
     coverage of the (constructor x primitive) matrix does not depend on luck."""
@@ -963,6 +998,7 @@ def directed_package(namespace="Dir"):
                                 ("d", ("named", "MaybeIntAgain", [])), ("e", P("int32")), ("f", ("opt", P("float64"))),
                                 # optional of an alias that is itself optional: two presence flags on the wire
                                 ("g", ("opt", ("named", "MaybeInt", []))), ("h", ("vec", ("opt", ("named", "MaybeIntAgain", [])), None))]})
+    pkg.defs += padding_defs()
     ts_elems = ["int8", "uint8", "float32", "float64", "complexfloat32", "complexfloat64", "bool"]
     steps = []
     for i, e in enumerate(ts_elems):
@@ -1061,8 +1097,15 @@ def spelling_directed_package(namespace="Sp"):
                                 ("y", ("named", B + "Box", [("named", B + "Wrap", [("named", "Sample", [])])])),
                                 ("z", ("map", P("string"), ("named", "BoxedPair", []))),
                                 ("w", ("opt", ("named", "TwoLocal", [])))]})
+    # containers of nullable elements: the shorthand (`int?*`) and the expanded spelling (`!vector {items: [null, int]}`) nest differently in the front end
+    pkg.defs.append({"kind": "record", "name": "Nullables", "tparams": [],
+                     "fields": [("vo", ("vec", ("opt", P("int32")), None)), ("fo", ("vec", ("opt", P("string")), 2)), ("mo", ("map", P("string"), ("opt", P("float64")))),
+                                ("vu", ("vec", ("union", True, [(None, P("int32")), (None, P("string"))]), None)),
+                                ("vvo", ("vec", ("vec", ("opt", ("named", "Sample", [])), None), None)), ("ov", ("opt", ("vec", P("int32"), None))),
+                                ("plain", ("opt", P("int32")))]})
     pkg.defs.append({"kind": "protocol", "name": "PSp", "steps": [
         ("head", ("named", "Holder", []), False),
+        ("nullables", ("named", "Nullables", []), True),
         ("boxes", ("named", B + "Box", [("named", "Pair2", [("named", "Sample", [])])]), True),
         ("wraps", ("named", "WrapS", []), True)]})
     return pkg
